@@ -206,7 +206,7 @@ fn run(ctx: &mut Ctx) {
     if th {
         stream_stratum(ctx, connective_core(), 5, 7, &mut idx, "asts_connective_core", 0, 0, 99);
         stream_stratum(ctx, binder_core(), 1, 6, &mut idx, "asts_binder_core", 0, 0, 99);
-        stream_stratum(ctx, counting_core(), 5, 5, &mut idx, "asts_counting_core", 0, 0, 99);
+        stream_stratum(ctx, counting_core(), 1, 4, &mut idx, "asts_counting_core", 0, 0, 99);
     } else {
         stream_stratum(ctx, connective_core(), 5, 5, &mut idx, "asts_connective_core", 0, 0, 99);
         stream_stratum(ctx, binder_core(), 1, 5, &mut idx, "asts_binder_core", 0, 0, 5);
